@@ -34,9 +34,13 @@ def setup_worker(ctx):
 
 
 def gen_case(rng, idx, tier):
-    if rng.random() < 0.25:
+    r_ = rng.random()
+    if r_ < 0.25:
         from rv import bcast
         return bcast.gen(rng, tier)
+    if r_ < 0.33:
+        from rv import evpersp
+        return evpersp.gen(rng, tier)
     cones = ['L', 'LQ', 'LQX', 'LQX', 'X', 'Q'][int(rng.integers(6))]
     return D.gen(rng, tier, cones=cones)
 
@@ -74,6 +78,9 @@ def run_case(spec, ctx, want_B=False):
     if spec.get('kind') == 'bcast':
         from rv import bcast
         return bcast.run(spec, ctx)
+    if spec.get('kind') == 'evpersp':
+        from rv import evpersp
+        return evpersp.run(spec, ctx)
     rng = np.random.default_rng(spec['spell'])
     sname = pick_solver(spec, rng)
     f = feats(spec, sname)
